@@ -116,6 +116,8 @@ def show(t, depth=0):
         return "(" + " + ".join(parts) + ")"
     if h == "elem":
         return "each(%s)" % show(t[1], d)
+    if h == "prev":
+        return "prev%s" % (t[1] if len(t) > 1 and t[1] else "")
     if h == "ap":
         return "%s(%s)" % (t[1], ", ".join(show(x, d) for x in t[2:]))
     if h in ("eq", "not"):
@@ -774,10 +776,10 @@ class Run:
         default = None
         for g in groups:
             vals = [l[1] for l in g.labels]
-            if any(v is None for v in vals):
+            if any(v is None or v == "default" for v in vals):
                 default = g
             for v in vals:
-                if v is None:
+                if v is None or v == "default":
                     continue
                 if self.truth(self.binop("==", c, C(v)), s["cond"]):
                     chosen = g
@@ -847,9 +849,33 @@ class Run:
                     if k == "while" or j == 0:
                         self.notes.append("loop without a recognised counter summarised at %s:%s" % (fr.func.file, s.get("l")))
                     key = ("ap", "while", self.ev(s["cond"], fr)) if s.get("cond") is not None else ("ap", "forever")
-            # one symbolic iteration, recorded as a loop event; cells written in the body hold loopvar(key, term) afterwards
+            # One symbolic iteration. Pass 1 finds the cells / fields the body writes; they are then replaced by prev(j)
+            # ("the value at the beginning of an arbitrary iteration") and the body is evaluated again (pass 2): afterwards a
+            # written cell holds loopvar(key, term of one iteration relative to prev, value before the loop).
+            counters = {c_ for c_, v_ in self.store.items() if isinstance(v_, tuple) and v_ and v_[0] in ("it", "idx")}
+            snap = (dict(self.store), dict(self.heap), len(self.events), list(self.conds), self.di, len(self.notes), self.ncell, self.nframe,
+                    getattr(self, "nobj", 0), dict(fr.vars))
+            self.stmt(s.get("body"), fr)
+            changed_cells = sorted((c_ for c_ in snap[0] if self.store.get(c_) != snap[0][c_] and c_ not in counters), key=lambda c_: c_[1])
+            def dflt(k_):
+                return ("a", k_[1]) if k_[0] == ("a", "::") else ("f", k_[0], k_[1])
+            changed_heap = sorted((k_ for k_ in set(self.heap) | set(snap[1]) if self.heap.get(k_, dflt(k_)) != snap[1].get(k_, dflt(k_))), key=repr)
+            self.store, self.heap = dict(snap[0]), dict(snap[1])
+            del self.events[snap[2]:]
+            self.conds = list(snap[3])
+            self.di = snap[4]
+            del self.notes[snap[5]:]
+            self.ncell, self.nframe, self.nobj = snap[6], snap[7], snap[8]
+            fr.vars = dict(snap[9])
+            self.status = None
+            init = {}
+            for j, c_ in enumerate(changed_cells):
+                init[c_] = self.store[c_]
+                self.store[c_] = ("prev", j)
+            for j, k_ in enumerate(changed_heap):
+                init[k_] = self.heap.get(k_, dflt(k_))
+                self.heap[k_] = ("prev", len(changed_cells) + j)
             mark = len(self.events)
-            before = dict(self.store)
             self.stmt(s.get("body"), fr)
             if self.status in ("break", "continue"):
                 self.status = None
@@ -859,11 +885,14 @@ class Run:
             ev.body = body_events
             ev.writes = {}
             self.events.append(ev)
-            for cell, old in before.items():
-                new = self.store.get(cell)
-                if new != old:
-                    ev.writes[cell] = new
-                    self.store[cell] = ("ap", "loopvar", key, new, old)
+            for j, c_ in enumerate(changed_cells):
+                new = self.store.get(c_)
+                ev.writes[c_] = new
+                self.store[c_] = ("ap", "loopvar", key, new, init[c_], C(j))
+            for j, k_ in enumerate(changed_heap):
+                new = self.heap.get(k_)
+                ev.writes[k_] = new
+                self.heap[k_] = ("ap", "loopvar", key, new, init[k_], C(len(changed_cells) + j))
             if ivar is not None:
                 self.store[ivar[0]] = ("ap", "m:size", ivar[1])
         finally:
